@@ -31,7 +31,13 @@ Definition process_in_dim (rank : nat) (in_dim : Z) : option nat :=
 
 (* TensorDict._add_batch_dim: [b for i, b in enumerate(batch_size) if i != in_dim]; nested nodes get the same in_dim *)
 Definition td_add (bs : list nat) (in_dim : nat) : list nat := remove_nth bs in_dim.
-(* TensorDict._remove_batch_dim: new_batch_size.insert(out_dim, batch_size) *)
+(* _remove_batch_dim / _maybe_remove_batch_dim first wrap out_dim against the rank of the RESULT (batch dims + 1):
+   out_dim = _maybe_correct_neg_dim(out_dim, None, ndim=len(self.batch_size) + 1); IndexError outside [-(rank+1), rank]
+   (repair of D190 / D191) *)
+Definition norm_out_dim (rank : nat) (o : Z) : option nat :=
+  if ((o <? - Z.of_nat (rank + 1)) || (o >=? Z.of_nat (rank + 1)))%Z then None
+  else Some (Z.to_nat (if (o <? 0)%Z then o + Z.of_nat (rank + 1) else o)).
+(* TensorDict._remove_batch_dim: new_batch_size.insert(out_dim, batch_size), out_dim already wrapped by [norm_out_dim] *)
 Definition td_remove (bs : list nat) (B : nat) (out_dim : Z) : list nat := py_insert bs out_dim B.
 
 (* what torch does to a leaf / what torch.stack of the slices gives *)
@@ -69,8 +75,8 @@ Definition vmap_cache_key (in_dim : Z) (level : nat) : Z * nat := (in_dim, level
                 _lazy.py:602,652,870,973,2973, and return self)
      HNested e  get(nested key): a lazy stack of the nested members, to which _get_str (1189-1199) copies hook_out, hook_in,
                 _is_vmapped and a patched _batch_size; e = the extra batch dims of the nested tensordict.  When the vmapped
-                dim is NOT the stack dim the members were rebuilt by _fast_apply(.., batch_size = member batch size minus
-                in_dim) (1436-1452), which overrides the batch size of the NESTED tensordicts too: e is lost (D192)
+                dim is NOT the stack dim every member hid the dim with its own _add_batch_dim, nested nodes keep e
+                (repair of D192; before it _fast_apply(.., batch_size=..) truncated the nested batch sizes)
      HDense     builds a regular tensordict from the leaves read through hook_out (to_tensordict, contiguous,
                 TensorDict({k: x.get(k)}, x.batch_size))
      HRebuild   builds a NEW lazy stack from the members with LazyStackedTensorDict(op(m_0), .., op(m_n), stack_dim=
@@ -84,7 +90,7 @@ Definition fixed_D33 : bool := false.
 Definition lazy_apply_gen (fx : bool) (op : hop) (L : lazy) : hres :=
   match op with
   | HSelf => HLazy L
-  | HNested e => HLazy {| mbs := if hidden L then mbs L ++ e else mbs L; nmem := nmem L; sd := sd L; hidden := hidden L |}
+  | HNested e => HLazy {| mbs := mbs L ++ e; nmem := nmem L; sd := sd L; hidden := hidden L |}
   | HDense => HTd (lazy_bs L)
   | HRebuild => HLazy {| mbs := mbs L; nmem := nmem L; sd := sd L; hidden := if fx then hidden L else false |}
   end.
